@@ -123,6 +123,19 @@ def directed_braces(rng):
     return b
 
 
+def directed_deep_stem(rng):
+    """a hairpin whose stem is far beyond what the recursive structure grammar can read within the interpreter's recursion limit: whether
+    such a program is refused is a resource question (not judged) - but the answer must be the SAME whatever was compiled earlier in
+    the process"""
+    n, l = rng.randint(150, 220), rng.randint(3, 6)
+    b = progen.Bundle()
+    b.texts["top.comp"] = ('declare component Top: ->\nsequence a = "%dN"\nsequence l = "%dN"\nstrand S = a l a*\n'
+                           'structure HP = S : %d( %d. %d)\n' % (n, l, n, l, n))
+    b.entry = "top"
+    b.directed = True
+    return b
+
+
 def directed_anon_rows(rng):
     """every strand / super-sequence statement has two to four unnamed regions, so that wherever the process's anonymous counter
     crosses a decimal boundary (9|10, 99|100) it does so INSIDE one statement"""
@@ -186,6 +199,9 @@ def run(st, tier, seed):
         elif i % 8 == 1:
             b = directed_braces(rng)
             res.count("directed:brace-groups")
+        elif i % 8 == 3:
+            b = directed_deep_stem(rng)
+            res.count("directed:helix-beyond-the-recursion-limit")
         elif i % 8 == 5:
             b = directed_anon_rows(rng)
             res.count("directed:several-anonymous-regions-per-statement")
@@ -259,6 +275,10 @@ def run(st, tier, seed):
                     rel = os.path.relpath(os.path.join(root, "proj"), cwd)
                     pj = (lambda p: os.path.normpath(os.path.join(rel, p)))
                     nh = rng.randint(0, 4)
+                    if fmt == "pil" and c == 0:
+                        nh = 0                      # every program is compiled at least once as the first compile of its process ...
+                    elif fmt == "pil" and c == 1:
+                        nh = max(1, nh)             # ... and at least once after earlier (successful) compiles
                     job = {"entry": pj(b.entry), "includes": [pj(x) for x in b.includes], "fmt": fmt,
                            "out": pj("o%d.%s" % (c, fmt)), "save": pj("o%d.save" % c),
                            "history": [({"cwd": os.path.join(root, "hist%d" % k), "entry": hist[k].entry, "includes": list(hist[k].includes),
@@ -282,6 +302,12 @@ def run(st, tier, seed):
                             if not h_.get("cwd"):
                                 h_["share"] = True
                                 res.count("history:shares-the-include-list-object")
+                    if rng.random() < 0.3:
+                        # an earlier compile of THIS program that is refused (it takes no parameters and is given three): a refused compile
+                        # must leave nothing behind that changes the next one
+                        job["history"] = job["history"] + [{"entry": job["entry"], "includes": list(job["includes"]), "out": pj("refused.pil"),
+                                                            "save": pj("refused.save"), "args": [7, 8, 9]}]
+                        res.count("history:refused-compile-of-the-same-program")
                     hs = seeds_cycle[c % 8]
                     runs.append((fmt, c, where, cwd, job, hs, nh))
             for c, k in enumerate(ks):
